@@ -1170,11 +1170,25 @@ func runGCCase(r *vrep.Report, cs gcCase) {
 	// truth knows as pessimistic, sent without resolving_pessimistic_lock: the store's ScanLock answer did not say
 	// what kind of lock it is - mocktikv, known finding C14-1.)  Transactions this happened to are named in the signature.
 	checkedAsPrewrite := map[uint64]bool{}
+	untypedScan := map[string]bool{} // keys whose pessimistic lock a ScanLock answer to the GC client presented without that type
+	for _, c := range u.Log.CallsFrom(logFrom) {
+		if c.Client != gc.ID {
+			continue
+		}
+		if p, ok := c.Resp.(*kvrpcpb.ScanLockResponse); ok && p != nil && c.Cmd == tikvrpc.CmdScanLock {
+			for _, sl := range p.Locks {
+				if l, ok := before.locks[string(sl.Key)]; ok && l.StartTS == sl.LockVersion && isPess(l) && sl.LockType != kvrpcpb.Op_PessimisticLock {
+					untypedScan[string(sl.Key)] = true
+				}
+			}
+		}
+	}
 	for _, c := range u.Log.CallsFrom(logFrom) {
 		if c.Client != gc.ID || c.Cmd != tikvrpc.CmdCheckTxnStatus {
 			continue
 		}
-		if q, ok := c.Req.(*kvrpcpb.CheckTxnStatusRequest); ok && !q.ResolvingPessimisticLock {
+		// ... and was then looked up as its own primary like a prewrite lock
+		if q, ok := c.Req.(*kvrpcpb.CheckTxnStatusRequest); ok && !q.ResolvingPessimisticLock && untypedScan[string(q.PrimaryKey)] {
 			if l, ok := before.locks[string(q.PrimaryKey)]; ok && l.StartTS == q.LockTs && isPess(l) {
 				checkedAsPrewrite[q.LockTs] = true
 			}
